@@ -28,6 +28,11 @@ CHECKS = {
             'For each catalogue functor program z3 proves every made predicate equals its hand-substituted definition, and F, its arguments and bystanders equal their meaning in the program without :=, on every database with <=2 rows per table.',
             'Trusted: lv/sqlsem.py, lv/gen_meta.py hand_substitute, z3. Outside: functors over recursive predicates, constant arguments.',
             'DESIGN.md §3 C04', 'sqlsmt'),
+    'C05': ('other',
+            'CrossHair symbolic execution of the real TypesInferenceEngine + TypeErrorChecker on really parsed skeleton programs whose literal kinds / accessed field names are symbolic; postcondition = union-find over must-agree occurrences known from the skeleton; claimed on "Confirmed over all paths"; counterexamples replayed on the real code',
+            'For 14 skeletons and every assignment of {Num, Str, Bool} to their literals the checker rejects exactly the clashing assignments and gives the expected signature otherwise, whatever the order of rules and conjuncts; a missing field of a closed record is rejected in both conjunct orders.',
+            'Trusted: CrossHair, the must-agree classes written next to each skeleton. Narrow: enumerated skeletons only; the clause about run-time values inhabiting the inferred types is not decided.',
+            'DESIGN.md §3 C05', 'kern'),
     'C07': ('translation_validation',
             'metamorphic: original and permuted/renamed program both compiled by the real compiler, equivalence of the two emitted SQL texts decided by z3 over a bounded symbolic database; sat models replayed on real SQLite',
             'For each catalogue program (core, agg, rec) and a seeded permutation of rules/conjuncts/disjuncts or renaming of variables/predicates, z3 proves both emitted SQL texts return the same multiset on every database with <=K rows per table.',
